@@ -80,6 +80,34 @@ def run(chk):
         if bad and len(chk.violations) < 8:
             chk.violation({"kind": "eval", "expr": expr, "doc": d, "impl": b.decode("utf-8", "replace"), "expect_doc": want.decode("utf-8", "replace")},
                           True, "evaluating an assignment-free expression changed the input document: " + expr)
+    # ---- YAML documents with anchors, aliases, merge keys, non-string keys: the document must print as `.` prints it
+    ydocs = ["a: &x {k: 1}\nb: *x\n", "a: &x {k: 1}\nb: {<<: *x, c: &y [1, 2]}\nd: *y\n", "- &a [1, 2]\n- *a\n- {m: *a}\n",
+             "1: x\ntrue: y\n~: z\n", "a: !!str 1\nb: !custom v\nc: 'q'\n", "a: # c\n  - 1 # one\n  - 2\n"]
+    yops = EXTRA_OPS if thorough else EXTRA_OPS[::2] + ["to_json", "@json", "to_props", "to_yaml", "@yaml", "tojson", "to_xml", "to_csv", "to_tsv"]  # explode is an in-place operator, so it is outside the property
+    yreq, ymeta = [], []
+    for y in ydocs:
+        yreq.append({"op": "eval", "expr": ".", "input": y, "in": "yaml", "out": "yaml"})
+        ymeta.append((y, None))
+        for op in yops:
+            for wrap in ("(%s) as $x | .", "(.. | %s) as $x | .", "([.. | select(%s)] | length) as $n | ."):
+                yreq.append({"op": "eval", "expr": wrap % op, "input": y, "in": "yaml", "out": "yaml"})
+                ymeta.append((y, wrap % op))
+    yresp = vlib.yqh_parallel(yreq)
+    base = {}
+    for (y, ex), r in zip(ymeta, yresp):
+        if ex is None and r and "out_b64" in r and not r.get("err"):
+            base[y] = vlib.b64d(r["out_b64"])
+    nyaml = 0
+    for (y, ex), r in zip(ymeta, yresp):
+        if ex is None or y not in base or not r or r.get("err") or r.get("panic") or "out_b64" not in r:
+            continue
+        out = vlib.b64d(r["out_b64"])
+        nyaml += 1
+        chk.count(("yaml", ex, y), nontrivial=True)
+        if out and out != base[y] and not (base[y] * (len(out) // max(1, len(base[y]))) == out) and len(chk.violations) < 8:
+            chk.violation({"kind": "yaml", "expr": ex, "yaml": y, "impl": out.decode("utf-8", "replace"), "expect": base[y].decode("utf-8", "replace")}, True,
+                          "evaluating an assignment-free expression changed how the document prints: " + ex)
+    chk.extra["yaml_alias_cases"] = nyaml
     chk.extra["distribution"] = {"model_cases": len(cases), "impl_outcomes": evalcheck.outcome_stats(impl), "outside_model_fragment(UNSUP)": unsup,
                                  "text_vocabulary_cases": len(tcases), "text_outcomes": evalcheck.outcome_stats(timpl)}
     if mm and not chk.violations:
@@ -94,6 +122,12 @@ def run(chk):
 
 
 def replay(rp):
+    if rp.get("kind") == "yaml":
+        r = vlib.yqh_batch([{"op": "eval", "expr": rp["expr"], "input": rp["yaml"], "in": "yaml", "out": "yaml"}])[0]
+        if not r or r.get("err") or "out_b64" not in r:
+            return True
+        out = vlib.b64d(r["out_b64"]).decode("utf-8", "replace")
+        return out == "" or out == rp["expect"] or rp["expect"] * (len(out) // max(1, len(rp["expect"]))) == out
     b = evalcheck.impl_eval([(rp["expr"], rp["doc"])])[0]
     res = evalcheck.results_of(b)
     if res is None or not res:
